@@ -1,4 +1,5 @@
 import Driver.NatShuffle
+import Driver.Curve
 /- strand_driver: evaluates the executable model on one request per line. -/
 open Strand Strand.Proto Strand.Driver
 
@@ -21,6 +22,9 @@ def handle (line : String) : String :=
     match args.mapM parseTok with
     | none => "bad-op parse"
     | some vals =>
+      if ctx = "R255" then (runCurve op vals).show
+      else if ctx = "SIG" then (runSig op vals).show
+      else
       match parseCtx ctx with
       | some (P, fl) =>
         match runNat P fl op vals with
